@@ -305,6 +305,19 @@ impl<'tcx> Cx<'tcx> {
                 mir::ConstValue::ZeroSized => {
                     items.push(("zst", "true".to_string()));
                 }
+                mir::ConstValue::Scalar(rustc_middle::mir::interpret::Scalar::Ptr(ptr, _)) => {
+                    // reference to a byte array (e.g. the template of format_args!): expose readable bytes
+                    let (prov, offset) = ptr.prov_and_relative_offset();
+                    if let Some(rustc_middle::mir::interpret::GlobalAlloc::Memory(alloc)) = tcx.try_get_global_alloc(prov.alloc_id()) {
+                        let a = alloc.inner();
+                        let start = offset.bytes_usize();
+                        if start <= a.len() && a.len() - start <= 4096 {
+                            let bytes = a.inspect_with_uninit_and_ptr_outside_interpreter(start..a.len());
+                            let text: String = bytes.iter().map(|b| if *b >= 0x20 && *b < 0x7f { *b as char } else { '\u{1}' }).collect();
+                            items.push(("bytes", esc(&text)));
+                        }
+                    }
+                }
                 _ => {
                     items.push(("other", esc(&format!("{:?}", val))));
                 }
